@@ -10,7 +10,7 @@ use fontdrasil::coords::{NormalizedCoord, NormalizedLocation};
 use fontdrasil::paths::string_to_filename;
 use fontdrasil::types::{GlyphName, Tag};
 use fontir::orchestration::WorkId as FeId;
-use std::collections::{BTreeSet, HashSet};
+use std::collections::HashSet;
 use std::path::Path;
 
 // ------------------------------------------------------------------------------------------ names
@@ -806,7 +806,8 @@ fn emit_case(i: usize, sources: &[PathBuf]) -> Vec<S> {
     }
     let file_bytes = std::fs::read(fontbe::paths::Paths::target_file(&ir_dir, &BeId::Font)).unwrap_or_default();
 
-    let a = audit(&ir_dir, &fe, &be);
+    let mut a = audit(&ir_dir, &fe, &be);
+    a.items.sort_by(|x, y| (&x.0, &x.2).cmp(&(&y.0, &y.2))); // the maps are HashMaps
     let mut by_path: std::collections::BTreeMap<PathBuf, Vec<usize>> = Default::default();
     for (k, it) in a.items.iter().enumerate() {
         by_path.entry(it.2.clone()).or_default().push(k);
@@ -872,6 +873,3 @@ pub fn run(stream: &str, args: &Args) {
         _ => unreachable!(),
     }
 }
-
-#[allow(dead_code)]
-fn _unused(_: BTreeSet<u8>) {}
